@@ -78,6 +78,15 @@ func main() {
 			overlay[k] = []byte(v)
 		}
 	}
+	if *dump == "panics" {
+		w, err := loadWorld(*repo, overlay)
+		if err != nil {
+			fmt.Println(err)
+			os.Exit(1)
+		}
+		debugPanics(w)
+		os.Exit(0)
+	}
 	if *dump != "" {
 		w, err := loadWorld(*repo, overlay)
 		if err != nil {
